@@ -631,6 +631,19 @@ func (p *pkgInfo) emitFacts(o *out) {
 	o.line("")
 	o.line("-- G6 explicit panic sites")
 	o.line("def panicSites : List String := %s", leanStrList(panics))
+	// the distinct panic statements, whatever function they live in (moving a guard into a helper or
+	// delegating to a function that already has it is not a change)
+	seenMsg := map[string]bool{}
+	var msgs []string
+	for _, s := range panics {
+		m := s[strings.Index(s, ": ")+2:]
+		if !seenMsg[m] {
+			seenMsg[m] = true
+			msgs = append(msgs, m)
+		}
+	}
+	sort.Strings(msgs)
+	o.line("def panicStatements : List String := %s", leanStrList(msgs))
 
 	p.emitArgModes(o)
 }
